@@ -319,7 +319,7 @@ func TestEchoBroadcast(t *testing.T) {
 				runners[id] = &exchangeRunner{cid: cid, ns: "session-7", quorum: quorum, msg: bmsg{Data: sent[id]}}
 			}
 		}
-		opt := netsim.Options{Idle: hardBound(30*time.Second, 5*time.Second), Hard: hardBound(90*time.Second, 10*time.Second)}
+		opt := netsim.Options{Idle: hardBound(30*time.Second, 5*time.Second), Hard: hardBound(45*time.Second, 10*time.Second)}
 		if eq != nil {
 			// a party that aborts early (conflicting retransmission) leaves the others waiting for its
 			// echo: they are cancelled once the network is idle and give no verdict
